@@ -93,15 +93,22 @@ Definition model (i : sx) : sx :=
   | None => SL []
   end.
 
+(* the line decodes to exactly the reference members: order, nesting, values *)
+Definition spec_line (i o : sx) : bool :=
+  let ec := dec_case i in let c := ec_cfg ec in
+  match sx_l o with
+  | SB out :: _ =>
+      match line_obj (resolved_le c) out with
+      | Some ms => jv_eqb (JObj ms) (JObj (jv_mem (entry_members c (ec_ctxs ec) (ec_ent ec) (ec_fs ec))))
+      | None => false
+      end
+  | _ => false
+  end.
 Definition spec (i o : sx) : bool :=
   let ec := dec_case i in let c := ec_cfg ec in
   match sx_l o with
   | [SB out; dump] =>
-      (* the line decodes to exactly the reference members: order, nesting, values *)
-      match line_obj (resolved_le c) out with
-      | Some ms => jv_eqb (JObj ms) (JObj (jv_mem (entry_members c (ec_ctxs ec) (ec_ent ec) (ec_fs ec))))
-      | None => false
-      end &&
+      spec_line i o &&
       (* the map encoder agrees with the last-write-wins view of the same tree (a reflected value
          that encoding/json rejects is stored raw by the map encoder and has no JSON form: not compared) *)
       (if existsb has_refl_err_fld (all_fields ec) then true else
